@@ -360,6 +360,58 @@ static InstResult tuple_checks() {
 	return r;
 }
 
+
+// Construction forms: the in-place constructors (optional::emplace, variant::emplace, manual_box::initialize) must select
+// the same constructor of the element type as the standard types do, i.e. direct-non-list-initialisation from the
+// forwarded arguments.  The element type records which constructor ran; every argument shape up to three arguments.
+struct CtorProbe {
+	int which, sum;
+	CtorProbe() : which(0), sum(0) {}
+	explicit CtorProbe(int a) : which(1), sum(a) {}
+	CtorProbe(int a, int b) : which(2), sum(a + b) {}
+	CtorProbe(int a, int b, int c) : which(3), sum(a + b + c) {}
+	CtorProbe(long a, char b) : which(4), sum((int)a + b) {}
+	CtorProbe(std::initializer_list<int> l) : which(9), sum(0) { for(int x : l) sum += x; }
+	CtorProbe(const CtorProbe &o) : which(o.which + 100), sum(o.sum) {}
+	CtorProbe(CtorProbe &&o) : which(o.which + 200), sum(o.sum) {}
+	CtorProbe &operator=(const CtorProbe &) = default;
+	// copies/moves made while handing the probe back to the checker add 100/200: only the original constructor counts
+	bool operator==(const CtorProbe &o) const { return which % 100 == o.which % 100 && sum == o.sum; }
+};
+static InstResult construction_forms() {
+	InstResult r; r.name = "construction-forms"; r.complete = true;
+	auto expect = [&](const char *what, const CtorProbe &got, const CtorProbe &want) {
+		r.evaluations++; r.distinct++;
+		if(!(got == want)) r.add_violation({"C17", std::string("construction-form:") + what, std::string(what) + " ran constructor #" + std::to_string(got.which % 100) + " (sum " + std::to_string(got.sum) + ") where the standard type runs #" + std::to_string(want.which % 100) + " (sum " + std::to_string(want.sum) + ")"}, what);
+	};
+	auto shapes = [&](auto &&with) {
+		with("()", [](auto &&f) { return f(); });
+		with("(int)", [](auto &&f) { return f(7); });
+		with("(int,int)", [](auto &&f) { return f(3, 4); });
+		with("(int,int,int)", [](auto &&f) { return f(1, 2, 3); });
+		with("(long,char)", [](auto &&f) { return f(5L, 'x'); });
+		with("(const T&)", [](auto &&f) { CtorProbe src(2, 2); return f(src); });
+		with("(T&&)", [](auto &&f) { return f(CtorProbe(9, 1)); });
+		with("(initializer_list)", [](auto &&f) { return f(std::initializer_list<int>{4, 5, 6}); });
+	};
+	shapes([&](const char *shape, auto call) {
+		CtorProbe want = call([](auto &&...a) { std::optional<CtorProbe> o; o.emplace(std::forward<decltype(a)>(a)...); return *o; });
+		expect((std::string("optional::emplace") + shape).c_str(), call([](auto &&...a) { frg::optional<CtorProbe> o; o.emplace(std::forward<decltype(a)>(a)...); return *o; }), want);
+		expect((std::string("optional::emplace-over-engaged") + shape).c_str(), call([](auto &&...a) { frg::optional<CtorProbe> o{CtorProbe(1, 1, 1)}; o.emplace(std::forward<decltype(a)>(a)...); return *o; }), want);
+		CtorProbe wantv = call([](auto &&...a) { std::variant<std::monostate, int, CtorProbe> v; v.emplace<CtorProbe>(std::forward<decltype(a)>(a)...); return std::get<CtorProbe>(v); });
+		expect((std::string("variant::emplace") + shape).c_str(), call([](auto &&...a) { frg::variant<int, CtorProbe> v; v.emplace<CtorProbe>(std::forward<decltype(a)>(a)...); return v.get<CtorProbe>(); }), wantv);
+		expect((std::string("variant::emplace-over-other") + shape).c_str(), call([](auto &&...a) { frg::variant<int, CtorProbe> v{5}; v.emplace<CtorProbe>(std::forward<decltype(a)>(a)...); return v.get<CtorProbe>(); }), wantv);
+		expect((std::string("manual_box::initialize") + shape).c_str(), call([](auto &&...a) { frg::manual_box<CtorProbe> b; b.initialize(std::forward<decltype(a)>(a)...); CtorProbe c = *b; b.destruct(); return c; }), want);
+	});
+	// single-argument construction of the holders themselves
+	{ CtorProbe src(2, 2); std::optional<CtorProbe> so(src); frg::optional<CtorProbe> fo(src); expect("optional(const T&)", *fo, *so); }
+	{ std::optional<CtorProbe> so(CtorProbe(6, 1)); frg::optional<CtorProbe> fo(CtorProbe(6, 1)); expect("optional(T&&)", *fo, *so); }
+	{ CtorProbe src(2, 2); frg::manual_box<CtorProbe> b; b.construct_with([&] { return CtorProbe(8, 1); }); CtorProbe c = *b; b.destruct(); r.evaluations++; r.distinct++; if(c.sum != 9 || (c.which % 100) != 2) r.add_violation({"C17", "construction-form:manual_box::construct_with", "construct_with did not store the functor's result"}, "construct_with"); (void)src; }
+	r.samples.push_back("optional::emplace / variant::emplace / manual_box::initialize with 8 argument shapes against std::optional / std::variant: the selected constructor and its arguments");
+	r.states = r.distinct; r.transitions = r.evaluations;
+	return r;
+}
+
 static std::vector<Instance> instances(const std::string &) {
 	std::vector<Instance> v;
 	v.push_back(bfs_instance<OptHarness<int, true, true>>("optional-int", BfsOptions{}, "optional<int>"));
@@ -375,6 +427,10 @@ static std::vector<Instance> instances(const std::string &) {
 	t.run = [](const std::vector<CrashInfo> &) { return tuple_checks(); };
 	t.replay = [](const std::string &) { InstResult r = tuple_checks(); for(auto &v : r.violations) printf("REPLAY-VIOLATION property=%s sig=%s: %s\n", v.prop.c_str(), v.sig.c_str(), v.msg.c_str()); return (int)r.violations.size(); };
 	v.push_back(t);
+	Instance c; c.name = "construction-forms";
+	c.run = [](const std::vector<CrashInfo> &) { return construction_forms(); };
+	c.replay = [](const std::string &) { InstResult r = construction_forms(); for(auto &v : r.violations) printf("REPLAY-VIOLATION property=%s sig=%s: %s\n", v.prop.c_str(), v.sig.c_str(), v.msg.c_str()); return (int)r.violations.size(); };
+	v.push_back(c);
 	return v;
 }
 int main(int argc, char **argv) { return harness_main(argc, argv, instances); }
